@@ -100,5 +100,14 @@ CLAIMS = {
         "note": TRUST + "vendor layout rows (Lua lines cited); exact rationals stand for floats of halves/tenths",
         "technique": "abstract interpretation in a bit-field/linear-form domain with trace partitioning + def-use mapping (static analysis)",
     },
+    "C08": {
+        "text": "The retry loops of LAN.send and LAN.authenticate are explored as control automata for every budget 1..4 and every "
+                "sequence of read outcomes (ok / timeout / protocol error / cancellation): transmissions ∈ [1,R], no retransmission after "
+                "a response, R timeouts ⇒ TimeoutError after exactly R transmissions, every failure exit disconnects first and leaves as "
+                "timeout/protocol error; plus must-pass-through reconnect in send, _disconnect/_connect/_alive/alive/write facts from "
+                "value-flow terms and the may-raise analysis with environment raisers for connect failures and Device._send_command.",
+        "note": TRUST + "timing relative to the 2 s read timeout and success of the following exchange on a real socket are not decided",
+        "technique": "conditional-constant exploration of retry-loop automata + must-pass-through + may-raise effects (static analysis)",
+    },
 }
 NOT_APPLICABLE = {}
